@@ -764,6 +764,7 @@ func enumC18(env *EnumEnv, it *WorkItem) *EnumResult {
 	reported := map[string]bool{}
 	idx := 0
 	states := []string{"fresh", "submitted", "running", "completed", "failed"}
+	g := &budgetGuard{env: env, res: res, phase: "plan shapes (smallest first)"}
 	for blocks := 1; blocks <= 2; blocks++ {
 		for seqs := 1; seqs <= 2; seqs++ {
 			for actions := 1; actions <= 2; actions++ {
@@ -782,7 +783,7 @@ func enumC18(env *EnumEnv, it *WorkItem) *EnumResult {
 											continue
 										}
 										idx++
-										if idx%it.NShards != it.Shard {
+										if idx%it.NShards != it.Shard || g.over() {
 											continue
 										}
 										c := cloneCase{Shape: sh, State: st, KeepState: ks, KeepSecrets: ksec, Target: target}
